@@ -97,7 +97,7 @@ func (r *OffsetFetchRequest) decode(pd packetDecoder, version int16) (err error)
 	if isFlexible {
 		partitionCount, err = pd.getCompactArrayLength()
 	} else {
-		partitionCount, err = pd.getArrayLength()
+		partitionCount, err = pd.getNullableArrayLength()
 	}
 	if err != nil {
 		return err
